@@ -6,7 +6,15 @@ V = os.path.dirname(os.path.dirname(os.path.abspath(__file__)))
 sys.path[:0] = [V, os.path.join(V, "_vendor")]
 from harness import tlc
 from harness.jsonv import jv, regex_facts, has_big
-import jsonschema
+try:
+    import jsonschema
+except ImportError:       # fresh restore: vendor it from the offline wheelhouse (git-ignored, rebuilt on demand)
+    import subprocess
+    subprocess.run(["/venv/bin/python", "-m", "pip", "install", "-q", "--no-index", "--find-links", "/opt/veriftools/wheels", "--target",
+                    os.path.join(V, "_vendor"), "jsonschema"], check=True, stdout=subprocess.DEVNULL)
+    import importlib
+    importlib.invalidate_caches()
+    import jsonschema
 
 SCHEMAS = [
     True, False, {}, {"type": "integer"}, {"type": "number", "minimum": 1}, {"type": ["string", "null"]}, {"exclusiveMinimum": 0, "maximum": 5},
